@@ -1,0 +1,22 @@
+//go:build verif
+
+package tls
+
+// Contracts for the JA3 fingerprint (property C13), checked by /verif/govc.
+// Comment-only file: it adds nothing to any build.
+//
+// The specification side is written from the JA3 definition, not from the code: decimal fields
+// joined with "-" inside a field and "," between the five fields; GREASE values (RFC 8701:
+// 0x0a0a, 0x1a1a, ... 0xfafa) are left out of ciphers, extensions and curves, never of point formats.
+//@ spec grease(v uint16) bool = v & 0x0f0f == 0x0a0a && v>>8 == v&0xff
+//@ fold ja3u16(a []uint16, skip bool) :: step(acc, x) = ite(skip && grease(uint16(x)), acc, snoc(acc, decany(any(x))))
+//@ fold ja3u8(a []uint8) :: step(acc, x) = snoc(acc, decany(any(x)))
+//
+//@ func (*ClientHelloInfo).JA3
+//@   ensures [ja3] result == concat(concat(concat(concat(concat(decany(any(c.Version)), ","), concat(joinl(ja3u16(c.CipherSuites, true), "-"), ",")), concat(joinl(ja3u16(c.Extensions, true), "-"), ",")), concat(joinl(ja3u16(c.SupportedCurves, true), "-"), ",")), joinl(ja3u8(c.SupportedPoints), "-"))
+//@   modifies nothing
+//@   loop 1: invariant forall v uint16 :: haskey(greaseTable, v) <==> grease(v)
+//@   loop 1: invariant list(vals) == ja3u16(c.CipherSuites[:rangeindex+1], true)
+//@   loop 2: invariant list(vals) == ja3u16(c.Extensions[:rangeindex+1], true)
+//@   loop 3: invariant list(vals) == ja3u16(c.SupportedCurves[:rangeindex+1], true)
+//@   loop 4: invariant list(vals) == ja3u8(c.SupportedPoints[:rangeindex+1])
